@@ -26,6 +26,13 @@ type Shape struct {
 	Avoid         map[string]bool
 	Probes        int
 	ShareBound    int // percent of anti-MEV worlds whose final block depends on the builder's share set at the last height
+	// EquivFocus: percent of the worlds run under the equivocation-focus profile with a Byzantine validator that is the
+	// primary of the second (or first) view of the first height, so that an equivocating primary of a view > 0 facing
+	// nodes that lag behind in a lower view is the rule there, not a one-in-a-million coincidence.
+	EquivFocus int
+	// LockPressure: percent of the worlds run under the lock-pressure profile (commits held back except towards one
+	// node, frequent timeouts).
+	LockPressure int
 }
 
 var epoch0 = time.Date(2024, 1, 1, 0, 0, 0, 0, time.UTC)
@@ -76,9 +83,13 @@ func RunSafety(r sim.Src, mons []*sim.Mon, keepLog bool, sh Shape) *sim.World {
 			watch[r.Intn("watchid", n)] = true // a validator with the watch-only flag: a silent one
 		}
 	}
+	focus := sh.EquivFocus > 0 && !sh.NoFaults && !sh.ChangingSets && F > 0 && sim.Scramble(r.Intn("equivfocus", 100), 100) < sh.EquivFocus
 	nf := 0
 	if !sh.NoFaults && !sh.ChangingSets && F > 0 {
 		nf = r.Intn("faulty", F+1)
+		if focus && nf == 0 {
+			nf = 1
+		}
 		if len(watch) > 0 && nf == F {
 			nf-- // the flagged validator is silent: it uses one fault slot for liveness, keep safety runs within F anyway
 		}
@@ -107,6 +118,30 @@ func RunSafety(r sim.Src, mons []*sim.Mon, keepLog bool, sh Shape) *sim.World {
 		}
 	}
 	startTip := []uint32{0, 1, 2, 7, 100, 1000003}[r.Intn("tip", 6)]
+	if focus {
+		if len(byz) == 0 { // every fault slot went to a restart budget
+			c := 0
+			for watch[c] {
+				c++
+			}
+			byz, budget = append(byz, c), budget-1
+		}
+		pv := 1
+		if r.Intn("focusview0", 4) == 0 {
+			pv = 0
+		}
+		id := int((int64(startTip)+1-int64(pv))%int64(n)+int64(n)) % n
+		ok := !watch[id]
+		for _, b := range byz[1:] {
+			if b == id {
+				ok = false
+			}
+		}
+		if ok {
+			byz[0] = id
+		}
+		sh.Profile = "equivfocus"
+	}
 	amev := int64(-1)
 	am := sh.ForceAMEV
 	if am == 0 {
@@ -194,6 +229,9 @@ func RunSafety(r sim.Src, mons []*sim.Mon, keepLog bool, sh Shape) *sim.World {
 		cfg.PreDataTxOnly = true // NeoX-like shares: valid for every pre-block of the height with these transactions
 	}
 	shareBound := amev >= 0 && sh.ShareBound > 0 && sim.Scramble(r.Intn("sharebound", 100), 100) < sh.ShareBound
+	if !focus && sh.Profile == "" && sh.LockPressure > 0 && sim.Scramble(r.Intn("lockpressure", 100), 100) < sh.LockPressure {
+		sh.Profile = "lockpressure"
+	}
 	w := sim.NewWorld(cfg, r, byz, watch, mons, keepLog)
 	if cfg.PreDataTxOnly {
 		w.Stat("predata_tx_only")
